@@ -47,16 +47,18 @@ def _stdout_of(fn):
     return r, buf.getvalue()
 
 
-NT = 6
-NS = 9
+NT = 7
+NS = 13
 
 
 def mk_target(k, a, b):
-    return [{'a': {'b': a}, 'c': [b, 1]}, [a, b, {'k': a}], {'a': a}, a, {'a': None, 'c': 'str-%d' % b}, {'a': {'b': [a, {'z': b}]}, 'c': []}][k]
+    return [{'a': {'b': a}, 'c': [b, 1]}, [a, b, {'k': a}], {'a': a}, a, {'a': None, 'c': 'str-%d' % b}, {'a': {'b': [a, {'z': b}]}, 'c': []},
+            {'a': (a, b), 'c': ((b,), 1)}][k]           # tuples: only a Python-literal target can hold them
 
 
 def mk_spec(k):
-    return ['a.b', {'x': 'a.b', 'y': 'c'}, ['c', 'a'], 'a', ('a', 'b'), 'c.0', {'x': ('a', 'b')}, 'zz.missing', 'a.b.1.z'][k]
+    return ['a.b', {'x': 'a.b', 'y': 'c'}, ['c', 'a'], 'a', ('a', 'b'), 'c.0', {'x': ('a', 'b')}, 'zz.missing', 'a.b.1.z',
+            [], {'y': []}, ('a', []), {'x': 1}][k]      # malformed specs: the library fails with a WRAPPED plain exception
 
 
 def cli_eq(tk: int, sk: int, a: int, b: int, indent: int, scalar: bool) -> bool:
